@@ -36,6 +36,9 @@ use protocol::Protocol;
 #[cfg(feature = "s3")]
 pub mod s3;
 
+#[cfg(feature = "verif_hooks")]
+pub mod verif;
+
 pub use self::error::{Error, ErrorKind};
 use self::record::{Call, Recording, Verb};
 
